@@ -200,6 +200,7 @@ func main() {
 	// round 3 streams (own rng, own shards): before anything that can hang
 	runF32Stream(o, corpus)  // f32.go
 	runTraceStream(o)        // trace.go
+	runHistStreams(o)        // hist.go (round 5: fuelled loop models, InSitu-reuse histories)
 	for _, d := range DenseSweep(rng.Split()) {
 		rn.rw.Count("dense-sweep")
 		rn.iter(d)
@@ -262,7 +263,7 @@ func replayMain(o Opts) {
 	if err := json.Unmarshal(b, &rp); err != nil {
 		Die("replay: %v", err)
 	}
-	if replayF32(b, o) || replayTrace(b, o) {
+	if replayF32(b, o) || replayTrace(b, o) || replayHist(b, o) {
 		os.Exit(0)
 	}
 	rn := &runner{
